@@ -209,6 +209,15 @@ def r18_3(ctx: Ctx) -> RuleResult:
         tries = [n for n in ast.walk(handler.node) if isinstance(n, ast.Try)]
         if not tries:
             raise AnalysisError(f"R18.3: {handler.name} has no try statement")
+        # library calls outside any `try`: nothing of the library's error families may come out of them
+        for st in handler.node.body:
+            if isinstance(st, ast.Try) or (isinstance(st, ast.Expr) and isinstance(st.value, ast.Constant)):
+                continue
+            for c in sorted(esc.block_escapes(handler, [st])):
+                if any(ctx.repo.is_subclass(c, f) for f in FAMILIES) or c in FAMILIES:
+                    rr.bad(handler, st, f"`{short(st, 60)}` is outside every `try` and can raise {c.split('.')[-1]}: the command ends "
+                           "with a traceback instead of a one-line message and exit status 1",
+                           construct=f"unprotected {c.split('.')[-1]} in {handler.name}")
         for t in tries:
             may = esc.block_escapes(handler, t.body)
             caught: List[str] = []
@@ -269,4 +278,55 @@ def r18_4(ctx: Ctx) -> RuleResult:
     return rr
 
 
-RULES = [r18_1, r18_2, r18_3, r18_4]
+def r18_5(ctx: Ctx) -> RuleResult:
+    """What the user writes after -q / -p reaches the library unchanged: on the path where the inline option was
+    given, the expression handed to compile() / resolve() is `args.<option>` itself (white space in a pointer
+    token is part of a member name)."""
+    from sa.peval import simplify_test
+
+    from .common import expand_locals
+
+    rr = RuleResult("R18.5", "inline query / pointer text is passed to the library unchanged", floor=2)
+    mod, gd, subs = cli_model(ctx)
+    want = {"handle_path_command": ("compile", "query"), "handle_pointer_command": ("resolve", "pointer")}
+    for name, s_ in sorted(subs.items()):
+        handler: FuncInfo = s_["handler"]  # type: ignore[assignment]
+        if handler.name not in want:
+            continue
+        callee, opt = want[handler.name]
+        argsn = handler.node.args.args[0].arg
+        lib = [c for c in calls(handler.node, callee) if c.args]
+        if not lib:
+            raise AnalysisError(f"R18.5: {handler.name} does not call {callee}(...)")
+        given = f"{argsn}.{opt}"
+
+        def atom(t: ast.expr) -> Optional[bool]:
+            if isinstance(t, ast.Compare) and len(t.ops) == 1 and path_of(t.left) == given and isinstance(t.comparators[0], ast.Constant) \
+                    and t.comparators[0].value is None:
+                return isinstance(t.ops[0], ast.IsNot)  # the option was given
+            return None
+
+        def assume(e: ast.AST) -> ast.AST:
+            class _A(ast.NodeTransformer):
+                def visit_IfExp(self, node: ast.IfExp) -> ast.AST:
+                    self.generic_visit(node)
+                    d, _r = simplify_test(node.test, atom)
+                    if d is True:
+                        return node.body
+                    if d is False:
+                        return node.orelse
+                    return node
+            return _A().visit(e)
+
+        for c in lib:
+            e = assume(expand_locals(handler.node, c.args[0]))
+            if path_of(e) == given:
+                rr.ok(handler.loc(c), f"{handler.name}: {callee}({given}) when the option is given")
+            else:
+                rr.bad(handler, c, f"with the option given on the command line, `{callee}` receives `{short(e, 70)}` instead of "
+                       f"`{given}` itself: the tool then answers for a different {opt} than the library would",
+                       construct=f"{callee}({short(e, 70)})")
+    return rr
+
+
+RULES = [r18_1, r18_2, r18_3, r18_4, r18_5]
